@@ -1596,7 +1596,47 @@ def c17_cli(ctx, res):
                         "`assembly x%04x` shows %r at the CLI, the statement text is %r"
                         % (e["origin"] + k, gl[k] if k < len(gl) else None, wl[k] if k < len(wl) else None),
                         dict(r.brief(), source=e["source"], expected_stderr=want[-800:]))
-    res.require(["l2:listing_program", "l2:listing_statement_with_tab"], "L2")
+    # labels as locations, one command after the other, through every reader (the line a label was read
+    # from is gone when the next command is read): names of equal length at equal columns, the same name
+    # with different offsets, a longer name between two short ones
+    d2 = _dir(ctx, "c17_labels")
+    _write(os.path.join(d2, "p.asm"), ".orig x3000\nloop add r1 r1 #-1\nbrp loop\ndone lea r0 greet\nputs\nhalt\ncount .fill #3\ngreet .stringz \"hey\"\n")
+    answer = {"assembly loop": "add r1 r1 #-1", "assembly done": "lea r0 greet", "assembly done+1": "puts", "print count": "x0003",
+              "print greet": "x0068", "assembly greet": ".stringz \"hey\"", "assembly count": ".fill #3", "print done": "xe003",
+              "assembly loop+1": "brp loop", "assembly done-1": "brp loop", "print loop": "x127f", "a loop": "add r1 r1 #-1", "a done": "lea r0 greet",
+              "assembly greet+1": ".stringz \"hey\"", "print count+1": "x0068"}
+    rng = random.Random(ctx.seed * 17 + 5)
+    orders = [["assembly loop", "assembly done", "assembly done+1", "print count", "print greet", "assembly greet", "assembly count", "print done", "assembly loop+1"],
+              ["assembly done", "assembly loop", "assembly done", "assembly loop", "a done", "a loop", "print greet", "print count", "print greet"],
+              ["assembly done+1", "assembly done-1", "assembly done", "assembly loop+1", "assembly loop", "print count+1", "print count", "assembly greet+1"]]
+    keys = sorted(answer)
+    for _ in range(4 if not ctx.thorough() else 40):
+        orders.append([rng.choice(keys) for _ in range(12)])
+    for oi, cmds in enumerate(orders):
+        want = "".join(answer[c] + "\n" for c in cmds)
+        for via in ("arg", "stdin", "stdin-crlf", "split"):
+            args = ["debug", "p.asm", "--minimal"]
+            data = b""
+            if via == "arg":
+                args += ["--command", ";".join(cmds + ["exit"])]
+            elif via == "split":
+                args += ["--command", ";".join(cmds[:3])]
+                data = ("\n".join(cmds[3:] + ["exit"]) + "\n").encode()
+            else:
+                data = (("\r\n" if via == "stdin-crlf" else "\n").join(cmds + ["exit"]) + "\n").encode()
+            r = lace(ctx, args, stdin=data, cwd=d2, timeout=30)
+            res.evaluations += len(cmds)
+            res.cls("l2:label_queries_via:" + via)
+            got = r.err.decode("utf-8", "replace")
+            if r.rc is None or r.crashed:
+                res.violate("C17/cli/crash", "`lace debug` crashed (exit %s)" % r.rc, dict(r.brief(), script=cmds, delivery=via))
+            elif got != want:
+                wl, gl = want.split("\n"), got.split("\n")
+                k = next((i for i in range(min(len(wl), len(gl))) if wl[i] != gl[i]), min(len(wl), len(gl)))
+                res.violate("C17/cli/label-location", "`%s` (command %d of a script delivered as %s) answers %r; the label's statement gives %r"
+                            % (cmds[k] if k < len(cmds) else "?", k + 1, via, gl[k] if k < len(gl) else None, wl[k] if k < len(wl) else None),
+                            dict(r.brief(), script=cmds, delivery=via, expected_stderr=want))
+    res.require(["l2:listing_program", "l2:listing_statement_with_tab", "l2:label_queries_via:arg", "l2:label_queries_via:stdin", "l2:label_queries_via:split"], "L2")
 
 
 # ------------------------------------------------------------------ C18
@@ -1682,7 +1722,10 @@ def c18_cli(ctx, res):
     # input behaves like `run` (C09), so an extension program must assemble and run there too
     extp = "and r0 r0 #0\nadd r0 r0 #5\npush r0\ncall f\npop r1\nadd r1 r1 #0\nputn\nhalt\nf add r0 r0 #1\nrets\n"
     _write(os.path.join(d, "ext.asm"), extp)
-    for sub, extra in (("run", []), ("debug", ["--command", "continue"]), ("debug", []), ("check", []), ("compile", [])):
+    for sub, extra in (("run", []), ("debug", ["--command", "continue"]), ("debug", []), ("check", []), ("compile", []),
+                       # the flag holds for the whole session, also after `reset` put the machine back
+                       ("debug", ["--command", "step;step;step;reset;continue"]), ("debug", ["--command", "continue;reset;continue"]),
+                       ("debug", ["--command", "reset;step into 3;reset;reset;continue"]), ("debug", ["--command", "break add f;continue;reset;continue;continue"])):
         args = [sub, "ext.asm"] + (["ext_%s.lc3" % sub] if sub == "compile" else []) + (["--minimal"] if sub in ("run", "debug") else []) + extra
         on = lace(ctx, args + ["-f", "stack"], cwd=d, stdin=b"")
         off = lace(ctx, args, cwd=d, stdin=b"")
